@@ -45,13 +45,12 @@ theorem processFresh_ok (c c1 : Client) (wr : Nat) (m : Invite) (rid : Nat) (w :
           cases h
           obtain ⟨hg4, _, hpws, _, _, hfw⟩ := saveWelcome_frame _ _ _ hs4
           refine ⟨rfl, ?_, ?_, ?_, rfl⟩
-          · simp only [findPw, hpws]
-            have := findPw_savePw s2 (okPw wr rid) wr
+          · have := findPw_savePw s4 (okPw wr rid) wr
             simpa [findPw, okPw] using this
-          · rw [hfw]; simp [welcomeOf]
-          · rw [findGroup_of_groups_eq _ _ hg4]
-            have : findGroup (savePw s2 (okPw wr rid)) m.gid = findGroup s2 m.gid := findGroup_of_groups_eq s2 _ rfl m.gid
-            rw [this, findGroup_of_groups_eq _ _ (replaceRelays_frame _ _ _ _ hs2).1, (saveGroup_frame _ _ _ hs1).1]
+          · have : findWelcome (savePw s4 (okPw wr rid)) rid = findWelcome s4 rid := rfl
+            rw [this, hfw]; simp [welcomeOf]
+          · have : findGroup (savePw s4 (okPw wr rid)) m.gid = findGroup s4 m.gid := findGroup_of_groups_eq s4 _ rfl m.gid
+            rw [this, findGroup_of_groups_eq _ _ hg4, findGroup_of_groups_eq _ _ (replaceRelays_frame _ _ _ _ hs2).1, (saveGroup_frame _ _ _ hs1).1]
             simp [pendingGroup]
 
 /-! ## 1. idempotence -/
@@ -151,11 +150,11 @@ theorem processFresh_keeps_inactive (c : Client) (wr rid : Nat) (m : Invite) (gi
       · exact h1
       · rename_i s2 hs2
         have h2 : NotActive s2 gid := notActive_of_groups_eq _ _ (replaceRelays_frame _ _ _ _ hs2).1 gid h1
-        have h3 : NotActive (savePw s2 (okPw wr rid)) gid := notActive_of_groups_eq s2 _ rfl gid h2
         split
-        · exact h3
+        · exact h2
         · rename_i s4 hs4
-          exact notActive_of_groups_eq _ _ (saveWelcome_frame _ _ _ hs4).1 gid h3
+          have h3 : NotActive s4 gid := notActive_of_groups_eq _ _ (saveWelcome_frame _ _ _ hs4).1 gid h2
+          exact notActive_of_groups_eq s4 _ rfl gid h3
 
 /-- one invitation op other than `accept` never turns a non-Active group Active -/
 theorem nonaccept_keeps_inactive (c : Client) (o : IOp) (ho : o.isAccept = false) (gid : Nat)
@@ -314,12 +313,14 @@ theorem processFresh_other (c : Client) (wr rid : Nat) (m : Invite) (gid : Nat) 
         have a2 : findGroup s2 gid = findGroup c.store gid := (findGroup_of_groups_eq _ _ g2 gid).trans a1
         have b2 : alookup gid s2.relays = alookup gid c.store.relays := (r2 gid hne).trans b1
         split
-        · exact pj _ _ (by simpa [findGroup, savePw] using a2) (by simpa [savePw] using b2) rfl
+        · exact pj _ _ a2 b2 rfl
         · rename_i s4 hs4
           obtain ⟨g4, r4, _⟩ := saveWelcome_frame _ _ _ hs4
           refine pj _ _ ?_ ?_ rfl
-          · rw [findGroup_of_groups_eq _ _ g4]; simpa [findGroup, savePw] using a2
-          · rw [r4]; simpa [savePw] using b2
+          · have : findGroup (savePw s4 (okPw wr rid)) gid = findGroup s4 gid := findGroup_of_groups_eq s4 _ rfl gid
+            simp only [this]; rw [findGroup_of_groups_eq _ _ g4]; exact a2
+          · show alookup gid s4.relays = _
+            rw [r4]; exact b2
 
 /-- **no_disturb_partial.**  An invitation operation can only touch the group whose MLS group id the
     invitation names.  Every OTHER group — Active or not — keeps its record, its MLS state and its relays,
@@ -466,7 +467,7 @@ def refused_has_no_effect : Prop :=
 theorem refused_process_no_effect (c : Client) (wr : Nat) (m : Invite) (k : ErrK) (gid : Nat)
     (hlim : ∀ s1, saveGroup c.store (pendingGroup m) = some s1 →
       ∃ s2, replaceRelays s1 m.gid m.relays = some s2 ∧
-        ∀ rid, (saveWelcome (savePw s2 (okPw wr rid)) (welcomeOf m rid wr)).isSome = true)
+        ∀ rid, (saveWelcome s2 (welcomeOf m rid wr)).isSome = true)
     (h : (process c wr m).2 = .err k) : proj (process c wr m).1 gid = proj c gid := by
   have pj : ∀ (p : PW), proj { c with store := savePw c.store p } gid = proj c gid := by
     intro p; simp [proj, findGroup, savePw]
@@ -506,14 +507,14 @@ theorem refused_process_no_effect (c : Client) (wr : Nat) (m : Invite) (k : ErrK
             obtain ⟨s2, hr2, hw⟩ := hlim s1 hs1
             simp only [hs1, hr2] at h ⊢
             have hw' := hw rid
-            cases hsw : saveWelcome (savePw s2 (okPw wr rid)) (welcomeOf m rid wr) with
+            cases hsw : saveWelcome s2 (welcomeOf m rid wr) with
             | none => rw [hsw] at hw'; cases hw'
             | some s4 => simp [hsw] at h
 
 /-- the hypothesis is the ordinary case: for an invitation within the store limits all four writes go through -/
 example : ∃ s1 s2, saveGroup (Client.empty .mem).store (pendingGroup (default : Invite)) = some s1 ∧
     replaceRelays s1 (default : Invite).gid [1, 2] = some s2 ∧
-    (saveWelcome (savePw s2 (okPw 1 0)) (welcomeOf default 0 1)).isSome = true := ⟨_, _, rfl, rfl, rfl⟩
+    (saveWelcome s2 (welcomeOf default 0 1)).isSome = true := ⟨_, _, rfl, rfl, rfl⟩
 
 /-- … `refused_has_no_effect` in full is still false, by a store limit only: on the memory backend a
     welcome naming more relays than the store accepts is refused by `replace_group_relays` AFTER
